@@ -238,19 +238,28 @@ def Res.isErr : Res → Bool
   | .errMethodInsertion | .errServiceInsertion | .errEmbedded | .errNotFound => true
   | _ => false
 
-/-- the refusal test of `insert_method` -/
-def insertRefused (d : Doc) (m : Method) (s : Scope) : Bool :=
-  (Gen.C04.insertChecksResolve && (resolveMethod d (Query.ofId m.id) none).isSome) ||
-  (Gen.C04.insertChecksService && (query Service.id d.service (Query.ofId m.id)).isSome) ||
-  (Gen.C04.insertChecksEmbeddedIds && (allMethods d).any (fun x => x.id == m.id)) ||
-  (Gen.C04.insertChecksRelationshipIds && s != .vm && (relationships d).any (fun e => e.id == m.id))
+/-- the refusal test of `insert_method`, parameterised by which of the four clauses the source has -/
+def insertRefusedG (c1 c2 c3 c4 : Bool) (d : Doc) (m : Method) (s : Scope) : Bool :=
+  (c1 && (resolveMethod d (Query.ofId m.id) none).isSome) ||
+  (c2 && (query Service.id d.service (Query.ofId m.id)).isSome) ||
+  (c3 && (allMethods d).any (fun x => x.id == m.id)) ||
+  (c4 && s != .vm && (relationships d).any (fun e => e.id == m.id))
 
-/-- `insert_method` -/
-def insertMethod (d : Doc) (m : Method) (s : Scope) : Doc × Res :=
-  if insertRefused d m s then (d, .errMethodInsertion)
+/-- `insert_method` with a given refusal test -/
+def insertMethodG (c1 c2 c3 c4 : Bool) (d : Doc) (m : Method) (s : Scope) : Doc × Res :=
+  if insertRefusedG c1 c2 c3 c4 d m s then (d, .errMethodInsertion)
   else match s with
     | .vm => ({ d with vm := (OSet.append Method.id d.vm m).1 }, .ok)
     | .rel r => (d.setRel r (OSet.append MRef.id (d.getRel r) (.embed m)).1, .ok)
+
+def insertRefused (d : Doc) (m : Method) (s : Scope) : Bool :=
+  insertRefusedG Gen.C04.insertChecksResolve Gen.C04.insertChecksService Gen.C04.insertChecksEmbeddedIds
+    Gen.C04.insertChecksRelationshipIds d m s
+
+/-- `insert_method` -/
+def insertMethod (d : Doc) (m : Method) (s : Scope) : Doc × Res :=
+  insertMethodG Gen.C04.insertChecksResolve Gen.C04.insertChecksService Gen.C04.insertChecksEmbeddedIds
+    Gen.C04.insertChecksRelationshipIds d m s
 
 /-- the five `remove` calls of `remove_method_and_scope` (all executed), and the first embedded method
 among their results -/
